@@ -115,7 +115,9 @@ func DriverMain(args []string) int {
 		fmt.Println("cannot create scratch dir:", err)
 		return 2
 	}
-	defer os.RemoveAll(tmp)
+	if os.Getenv("VERIF_KEEP_TMP") == "" {
+		defer os.RemoveAll(tmp)
+	}
 
 	// 1. determinism self-test
 	det, detOK := determinismTest(prop, tier, base, cfg.DetSeeds, tmp)
@@ -184,6 +186,10 @@ func DriverMain(args []string) int {
 	// 4. evidence
 	wall := time.Since(t0).Seconds()
 	writeEvidence(prop, tier, base, cfg, workers, agg, det, len(reported), knownHits, wall)
+	if agg.unconfirmed > 0 && exit == 0 {
+		fmt.Println("HARNESS-ERROR: a race report could not be confirmed and the search found no other violation; no verdict")
+		exit = 2
+	}
 	if !detOK && exit == 0 {
 		fmt.Println("HARNESS-ERROR: determinism self-test diverged and the search found no violation; no verdict")
 		exit = 2
@@ -207,15 +213,16 @@ var extraPhases = map[string]func(prop, tier string, base uint64, cfg tierCfg, w
 
 // Aggregate is the merged result of all workers.
 type Aggregate struct {
-	Stats      *Stats
-	sets       [4]map[uint64]struct{}
-	Violations []*Violation
-	Runs       uint64
-	Completed  bool
-	WorkerWall float64
-	raceOf     map[*Violation]string
-	Extra      map[string]interface{}
-	noShrink   bool
+	Stats       *Stats
+	sets        [4]map[uint64]struct{}
+	Violations  []*Violation
+	Runs        uint64
+	Completed   bool
+	WorkerWall  float64
+	raceOf      map[*Violation]string
+	Extra       map[string]interface{}
+	noShrink    bool
+	unconfirmed int // race reports that did not reproduce alone
 }
 
 func newAggregate() *Aggregate {
